@@ -12,8 +12,23 @@ Local Arguments Z.eqb : simpl never.
 Local Arguments str_eqb : simpl never.
 
 Definition inline_tags : list str :=
-  [[]; s_br; s_code; s_a; [105; 109; 103]; s_s; [101; 109]; [115; 116; 114; 111; 110; 103]].
-Definition all_tags : list str := block_tags ++ inline_tags.
+  [s_br; s_code; s_a; [105; 109; 103]; s_s; [101; 109]; [115; 116; 114; 111; 110; 103]].
+(* the tag vocabulary of the output: the block tags without the empty tag (which block_tags lists last,
+   for the tokens that are never rendered through it) and the inline tags *)
+Definition all_tags : list str := removelast block_tags ++ inline_tags.
+
+Lemma no_empty_tag :
+  ~ In [] all_tags /\ length all_tags = 26%nat
+  /\ chunk_ok all_tags (CLit [60]) = false /\ chunk_ok all_tags (CLit [60; 47]) = false.
+Proof.
+  split; [|split; [reflexivity | split; reflexivity]].
+  intros H. cbn in H. repeat (destruct H as [H|H]; [discriminate H|]). exact H.
+Qed.
+
+Lemma ok_tok_tt tags a b : ttype a = ttype b -> ttag a = ttag b -> ok_tok tags a -> ok_tok tags b.
+Proof. unfold ok_tok, not_html. intros -> ->. exact (fun x => x). Qed.
+Lemma ok_blk_tt tags a b : ttype a = ttype b -> ttag a = ttag b -> ok_blk tags a -> ok_blk tags b.
+Proof. unfold ok_blk, ok_tok, not_html. intros -> ->. exact (fun x => x). Qed.
 
 (* ---- vocabulary => ok_tok ---- *)
 
@@ -23,21 +38,25 @@ Proof.
   repeat match goal with H : _ \/ _ |- _ => destruct H as [H|H] end;
     try (match goal with H : ic_html _ = true /\ _ |- _ => destruct H as [HT _]; rewrite HH in HT; discriminate HT end);
     match goal with H : ttype ?x = _ /\ ttag ?x = _ |- _ => destruct H as [A B] end; unfold ok_tok, not_html; rewrite A, B;
-    (split; [unfold all_tags, block_tags, inline_tags; apply in_or_app; right; cbn; tauto | split; reflexivity]).
+    (split; [first [right; reflexivity | left; unfold all_tags, block_tags, inline_tags; apply in_or_app; right; cbn; tauto] | split; reflexivity]).
 Qed.
 
 Lemma is_ok_tok ty tag t :
-  In tag block_tags -> str_eqb ty s_html_block = false -> str_eqb ty s_html_inline = false ->
-  is ty tag t -> ok_tok all_tags t /\ (tchildren t = None \/ tchildren t = Some []).
+  In tag (removelast block_tags) \/ silent_ty ty = true \/ str_eqb ty s_inline = true ->
+  str_eqb ty s_html_block = false -> str_eqb ty s_html_inline = false ->
+  is ty tag t -> ok_blk all_tags t /\ (tchildren t = None \/ tchildren t = Some []).
 Proof.
-  intros HT H1 H2 (A & B & C & _). split; [|exact C]. unfold ok_tok, not_html. rewrite A, B.
-  split; [unfold all_tags; apply in_or_app; left; exact HT | split; assumption].
+  intros HT H1 H2 (A & B & C & _). split; [|exact C]. unfold ok_blk, ok_tok, not_html. rewrite A, B.
+  destruct HT as [HT|[HT|HT]].
+  - left. split; [left; unfold all_tags; apply in_or_app; left; exact HT | split; assumption].
+  - left. split; [right; exact HT | split; assumption].
+  - right. split; [exact HT | split; assumption].
 Qed.
 
-Ltac tag_tac := unfold block_tags, hN; cbn; tauto.
+Ltac tag_tac := first [ left; unfold block_tags, hN; cbn; tauto | right; left; reflexivity | right; right; reflexivity ].
 
 Lemma P_rule_ok_tok cfg n t : c_html cfg = false -> P_rule cfg n t ->
-  ok_tok all_tags t /\ (tchildren t = None \/ tchildren t = Some []).
+  ok_blk all_tags t /\ (tchildren t = None \/ tchildren t = Some []).
 Proof.
   intros HH. unfold P_rule.
   repeat match goal with |- (if ?c then _ else _) -> _ => destruct c end;
@@ -54,7 +73,7 @@ Qed.
 
 (* a block token: in the vocabulary, and if it is of type inline its children are still empty *)
 Definition fresh_ok (t : token) : Prop :=
-  ok_tok all_tags t /\ (tchildren t = None \/ tchildren t = Some []).
+  ok_blk all_tags t /\ (tchildren t = None \/ tchildren t = Some []).
 
 Lemma fresh_ok_top t : fresh_ok t -> ok_top all_tags t.
 Proof.
@@ -69,7 +88,7 @@ Context (HB : c_html (p_block cfg) = false) (HI : ic_html (p_inline cfg) = false
 (* the invariant of the core chain: every token is fine for the renderer, and every token of type
    inline has children from the inline vocabulary *)
 Definition tok_inv (t : token) : Prop :=
-  ok_tok all_tags t /\ forall ch, tchildren t = Some ch -> str_eqb (ttype t) s_inline = true -> Forall (V (p_inline cfg)) ch.
+  ok_blk all_tags t /\ forall ch, tchildren t = Some ch -> str_eqb (ttype t) s_inline = true -> Forall (V (p_inline cfg)) ch.
 
 Lemma tok_inv_top t : tok_inv t -> ok_top all_tags t.
 Proof.
@@ -121,7 +140,7 @@ Proof.
   destruct (tchildren t) as [ch|] eqn:C, (tchildren t') as [ch'|] eqn:C'.
   - pose proof (f_equal (fun x => (ttype x, ttag x, tchildren x)) E) as E3. cbn in E3. injection E3 as T1 T2 T3.
     split.
-    + destruct Hok as [Ht [H1 H2]]. unfold ok_tok, not_html. rewrite T1, T2. repeat split; assumption.
+    + exact (ok_blk_tt _ _ _ (eq_sym T1) (eq_sym T2) Hok).
     + intros c Ec Ei. rewrite C' in Ec. injection Ec as <-. rewrite T1 in Ei. eapply erase_map_V; [exact T3 | apply (Hch ch eq_refl Ei)].
   - pose proof (f_equal tchildren E) as E3. cbn in E3. rewrite C' in E3. discriminate E3.
   - pose proof (f_equal tchildren E) as E3. cbn in E3. rewrite C in E3. discriminate E3.
@@ -189,8 +208,8 @@ Proof.
   destruct (str_eqb name n_block).
   { destruct (c_inlineMode st).
     - rfinish E. cbn [c_tokens]. apply Forall_app. split; [exact H|]. constructor; [|constructor].
-      apply fresh_tok_inv. split; [|right; reflexivity]. unfold ok_tok, not_html.
-      split; [unfold all_tags, block_tags; apply in_or_app; left; cbn; tauto | split; reflexivity].
+      apply fresh_tok_inv. split; [|right; reflexivity]. right. unfold not_html.
+      split; [reflexivity | split; reflexivity].
     - destruct (block_parse (p_block cfg) rf cf (c_src st) (c_env st) (c_tokens st)) as [b|?|] eqn:BP; cbn [bind] in E; try discriminate E.
       rfinish E. cbn [c_tokens].
       destruct (block_parse_kinds _ _ _ CS _ _ _ _ BP) as (seg & Tk & F). rewrite Tk.
